@@ -16,8 +16,9 @@ nontrivial_rule("C02", "Non-trivial: the reference counts >= 2 closed cycles, or
 assumptions("C02", [
     "reference models in vp/refs/rainflow_ref.py are written from the property statement (four-point rule, "
     "turning-point convention, Clormann-Seeger HCM flow chart) in plain Python",
-    "signals live on grids where differences are exact in floating point (integers, /8 grid, dyadic), so that "
-    "'<=' decisions of the reference and of the detectors see the same numbers",
+    "reference and detectors compare the same double-precision differences |x - y| of the same samples, so every <= decision "
+    "sees the same numbers for any float64 signal; signals include decimals that single precision cannot represent, values one "
+    "ulp / 1e-12 / 1e-9 beside a neighbour (no plateau), |x| <= 1e9",
 ])
 
 
@@ -47,6 +48,10 @@ def _labels(sig, tps, ctx):
 def check_fourpoint(sig, ctx):
     tps = ref.turning_points(sig)
     cycles, resid = ref.fourpoint(tps)
+    if ref.fourpoint(tps, exact=True) != (cycles, resid):
+        # two ranges differ by less than the rounding of a difference: the textbook rule in exact arithmetic and in
+        # double precision disagree, no implementation can be held to either (counted, not asserted)
+        ctx.skip("a <= decision depends on the rounding of a difference")
     tie = _labels(sig, tps, ctx)
     if len(cycles) >= 2 or tie:
         ctx.nontrivial()
@@ -101,6 +106,8 @@ def fkm_tie_class(rev):
 def check_fkm(sig, ctx):
     rev = [v for _, v in ref.interior_reversals(sig)]
     cycles, resid = ref.hcm_clormann_seeger(rev)
+    if ref.hcm_clormann_seeger(rev, exact=True) != (cycles, resid):
+        ctx.skip("a >= decision depends on the rounding of a difference")
     tie = fkm_tie_class(rev)
     if tie:
         ctx.label("abs_tie_with_running_max")
@@ -128,7 +135,7 @@ def check_find_turns(sig, ctx):
 
 
 def _sig(tier):
-    return gs.signals(min_size=2, max_size=50 if tier == "quick" else 300, exact_only=True)
+    return gs.signals(min_size=2, max_size=50 if tier == "quick" else 300, exact_only=False)
 
 
 @subcheck("C02", "reference_random", strategy=lambda tier: _sig(tier).map(lambda s: {"signal": s}),
